@@ -2,9 +2,11 @@
     of FramedRead's feed/decode loop, and of protocol/src/utils.rs (batch codec).  Data types,
     layouts, tags and constants come from SeliumGen.Layouts (regenerated from the source);
     the function bodies are transcribed by hand with bounds-checked primitives whose failure is
-    an explicit [Panic], and tied to the code by the differential run. *)
-Require Import Selium.Base Selium.Bytes Selium.Utf8 Selium.Bincode.
-Require Import SeliumGen.Layouts.
+    an explicit [Panic], and tied to the code by the differential run.  The batch codec is assembled
+    from SeliumGen.BatchFacts: every condition and arithmetic expression of utils.rs is translated,
+    only the control skeleton (recognised statement by statement by the translator) is written here. *)
+Require Import Selium.Base Selium.Bytes Selium.Utf8 Selium.Bincode Selium.BatchArith.
+Require Import SeliumGen.Layouts SeliumGen.BatchFacts.
 Open Scope N_scope.
 
 (** Encoder<Frame>::encode, appending to an empty [dst] *)
@@ -71,25 +73,30 @@ Fixpoint feed_all (st : rstate) (chunks : list bytes) : outcome (list Frame * rs
 
 (** utils.rs *)
 Definition encode_batch (ms : list bytes) : bytes :=
-  be_bytes 8 (N.of_nat (List.length ms)) ++ concat (map (fun m => be_bytes 8 (blen m) ++ m) ms).
+  be_bytes 8 (out_or 0 (gen_enc_count (N.of_nat (List.length ms))))
+  ++ concat (map (fun m => be_bytes 8 (out_or 0 (gen_enc_len (blen m))) ++ m) ms).
 
 Fixpoint batch_loop (fuel : nat) (count : N) (b : bytes) (acc : list bytes) : outcome (list bytes) :=
   if count =? 0 then Val (rev acc) else
   match fuel with
   | O => Panic "batch_loop: out of fuel"
   | S k =>
-    if blen b <? 8 then Val (rev acc) else
+    do g1 <- gen_loop_guard1 (blen b);
+    if g1 then Val (rev acc) else
     do p <- get_u64_be b;
-    if blen (snd p) <? fst p then Val (rev acc) else
-    do q <- split_to (fst p) (snd p);
+    do g2 <- gen_loop_guard2 (fst p) (blen (snd p));
+    if g2 then Val (rev acc) else
+    do n <- gen_split_arg (fst p) (blen (snd p));
+    do q <- split_to n (snd p);
     batch_loop k (count - 1) (snd q) (fst q :: acc)
   end.
 
 (** returns the messages and the capacity requested from [Vec::with_capacity] *)
 Definition decode_batch (b : bytes) : outcome (list bytes * N) :=
-  if blen b <? 8 then Val ([], 0) else
+  do g0 <- gen_head_guard (blen b);
+  if g0 then Val ([], 0) else
   do p <- get_u64_be b;
-  let capacity := N.min (blen (snd p) / 8) (fst p) in
+  do capacity <- gen_capacity (blen (snd p)) (fst p);
   do ms <- batch_loop (S (List.length (snd p))) (fst p) (snd p) [];
   Val (ms, capacity).
 
